@@ -198,3 +198,33 @@ func vh_holes() {
 	}
 	vreach("holes")
 }
+
+// The reassembly timeout runs from the first fragment: progress does not extend it.
+func vh_timeout_progress() {
+	D := vnBytes("D", 24)
+	timeout := time.Duration(1+vnU32("timeout")%100000) * time.Millisecond
+	gap := func() {}
+	if !vsymbolic() {
+		// native replay cannot impose the solver's clock readings on time.Now; it realises the
+		// same situation with real time instead: gaps of 2/3 of the timeout between fragments
+		timeout = 30 * time.Millisecond
+		gap = func() { time.Sleep(20 * time.Millisecond) }
+	}
+	f := NewFragmentation(1<<20, 1<<19, timeout)
+	id := vnU32("id")
+	_, d0 := f.Process(id, 0, 7, true, buffer.View(D[:8]).ToVectorisedView())
+	t0 := f.reassemblers[id].creationTime // when the first fragment was seen
+	gap()
+	_, d1 := f.Process(id, 8, 15, true, buffer.View(D[8:16]).ToVectorisedView())
+	vassert(!d0 && !d1, "incomplete")
+	gap()
+	tb := time.Now()
+	res, done := f.Process(id, 16, 23, false, buffer.View(D[16:]).ToVectorisedView())
+	if done {
+		vassert(vhSame(res.ToView(), D), "reassembled")
+		vassert(tb.Sub(t0) <= timeout, "a datagram completes only if its last fragment arrives within the timeout after the first one was seen (progress in between does not extend the deadline)")
+		vreach("in-time")
+	} else {
+		vreach("expired")
+	}
+}
